@@ -54,6 +54,21 @@ def interleaved_layout():
     }
 
 
+def callgraph_layout(second_call=False):
+    """F = {b0 (calls G), b1}; G = {b2 entry (jcc to b4), b3 ret, b4 ret}: a multi-block callee"""
+    return {
+        "sections": [{"name": ".text", "exec": True, "blocks": [
+            {"id": "b0", "kind": "code", "atoms": ["o", "call:s2"], "syms": ["s0"], "func": "F", "entry": True},
+            {"id": "b1", "kind": "code", "atoms": ["o", "call:s2" if second_call else "o"], "syms": ["s1"], "func": "F"},
+            {"id": "b1r", "kind": "code", "atoms": ["o", "ret"], "syms": ["s1r"], "func": "F"},
+            {"id": "b2", "kind": "code", "atoms": ["o", "jcc:s4"], "syms": ["s2"], "func": "G", "entry": True},
+            {"id": "b3", "kind": "code", "atoms": ["o", "ret"], "syms": ["s3"], "func": "G"},
+            {"id": "b4", "kind": "code", "atoms": ["o", "ret"], "syms": ["s4"], "func": "G"},
+        ]}],
+        "ext": ["ext1"], "mods": [], "annots": [],
+    }
+
+
 def mixed_layout():
     """code, data in the middle of .text, code; plus a .data section"""
     return {
@@ -224,6 +239,22 @@ def shapes(tier):
         spec = interleaved_layout()
         spec["mods"] = copy.deepcopy(mods)
         out.append(("interleaved/%s" % mods_name(mods), spec))
+    for second in (False, True):
+        for mods in ([dele("b0", 1, 2)], [rep("b0", 1, 2, "mov")], [dele("b0", 0, 2)], [dele("b0", 0, 2, proxy=True)],
+                     [dele("b0", 0, 2, proxy=True), dele("b1", 0, 2, proxy=True), dele("b1r", 0, 2, proxy=True)], [ins("b1", 1, "call:s2")],
+                     [ins("b0", 0, "call:s2")], [rep("b0", 1, 2, "call:s2")], [dele("b3", 0, 2)], [dele("b2", 0, 2)],
+                     [ins("b3", 1, "call:s2")], [ins("b1", 0, "call:ext1")], [dele("b1", 1, 2)], [ins("b4", 1, "ret")],
+                     [dele("b0", 1, 2), ins("b1", 1, "call:s2")], [ins("b0", 2, "mov")]):
+            spec = callgraph_layout(second)
+            spec["mods"] = copy.deepcopy(mods)
+            out.append(("callgraph%d/%s" % (2 if second else 1, mods_name(mods)), spec))
+    for at in (0, 1, 3):
+        spec = text_layout("jcc:s0")
+        spec["mods"] = [ins("b1", at, "selfloop")]
+        out.append(("text/jcc:s0/%s" % mods_name(spec["mods"]), spec))
+    spec = text_layout("jcc:s0")
+    spec["mods"] = [rep("b1", 0, 3, "selfloop")]
+    out.append(("text/jcc:s0/%s" % mods_name(spec["mods"]), spec))
     for p in ("ripimm:s2", "ripimm4:s0"):
         spec = text_layout("jcc:s0")
         spec["mods"] = [ins("b1", 1, p)]
